@@ -34,15 +34,22 @@ class Prefetch(_CHarness):
     script          : extra operations inserted after `at` elements:
                       None | ['reinit', n2] | ['stop'] | ['shutdown']
                       | ['async-next-then-reinit', n2]
+                      | ['shutdown-pending']  (rpc only): the generator is
+                        endless and slow; a next request is pending when the
+                        shutdown request arrives; the pending request must be
+                        answered (elements so far + a retriable error) and
+                        the prefetch thread must end
     at              : number of elements consumed before the scripted operation
   """
   name = 'prefetch'
 
   def __init__(self, n=2, fail_at=None, ps=1, k=1, script=None, at=0,
-               mode='preempt', direct=False):
+               mode='preempt', direct=False, prop='C15'):
     self.params = dict(n=n, fail_at=fail_at, ps=ps, k=k, script=script, at=at,
-                       mode=mode, direct=direct)
+                       mode=mode, direct=direct, prop=prop)
     self.mode = mode
+    if script and script[0] == 'shutdown-pending':
+      self.max_clock = 3000.0     # the generator is endless: a short horizon
     m = _m()
     hooks.instrument(m.courier_server.PrefetchedCourierServer)
 
@@ -51,6 +58,8 @@ class Prefetch(_CHarness):
     p = self.params
     lf = m.lazy_fns
     self.responses = []     # (generator tag at issue time, list payload)
+    self.pending_answer = None
+    self.pending_from = 0
     self.log = []
     self.end = None
 
@@ -127,8 +136,10 @@ class Prefetch(_CHarness):
         server.start()
         client = m.courier_utils.CourierClient('w0')
       client.wait_until_alive()
-      r = client.call(lf.trace(fx.gen)(p['n'], 'R1', p['fail_at'], 'g1'),
-                      courier_method='init_generator').result()
+      pending = bool(p['script']) and p['script'][0] == 'shutdown-pending'
+      first = (lf.trace(fx.slow_gen)('g1') if pending else
+               lf.trace(fx.gen)(p['n'], 'R1', p['fail_at'], 'g1'))
+      r = client.call(first, courier_method='init_generator').result()
       self.log.append(('init', r))
       cur = 'g1'
       consumed = 0
@@ -165,6 +176,26 @@ class Prefetch(_CHarness):
             client.shutdown().result()
             self.log.append(('shutdown',))
             cur = 'stopped'
+          elif op == 'shutdown-pending':
+            self.pending_from = consumed
+            f1 = client.next_batch_from_generator(p['k'])
+            if p['script'][1:] == ['signal']:
+              # SIGTERM on the server process (or another client's request):
+              # this client's pending call stays pending
+              server._request_shutdown()
+            else:
+              client.shutdown().result()   # cancels this client's pendings
+            self.log.append(('shutdown',))
+            try:
+              self.pending_answer = decode(f1)
+            except sched.Abort:
+              raise
+            except BaseException as e:  # pylint: disable=broad-except
+              # the transport may drop a call that is in flight when the
+              # server stops: a loud, retriable outcome for the client
+              self.pending_answer = ('transport-error', type(e).__name__)
+            cur = 'stopped'
+            break
         batch = decode(client.next_batch_from_generator(p['k']),
                        patient=not (cur == 'stopped' and not p['direct']))
         self.responses.append((cur, batch))
@@ -173,7 +204,7 @@ class Prefetch(_CHarness):
             done = True
           else:
             consumed += 1
-      self.end = 'done' if done else 'guard'
+      self.end = 'done' if done or pending else 'guard'
       if not p['direct']:
         server.stop().join()
       # every prefetch thread (also the one of a replaced generator) and every
@@ -182,12 +213,15 @@ class Prefetch(_CHarness):
     return body
 
   def outcome(self, res):
+    pa = getattr(self, 'pending_answer', None)
     return (res.failure and res.failure[0],
-            tuple((t, tuple(map(_e, b))) for t, b in self.responses))
+            tuple((t, tuple(map(_e, b))) for t, b in self.responses),
+            tuple(map(_e, pa)) if pa is not None else None)
 
   def _cfg(self):
     p = self.params
-    s = p['script'][0] if p['script'] else 'plain'
+    s = '-'.join(map(str, p['script'])) if p['script'] and p['script'][0] == \
+        'shutdown-pending' else p['script'][0] if p['script'] else 'plain'
     f = 'fail' if p['fail_at'] is not None else 'ok'
     d = 'direct' if p['direct'] else 'rpc'
     return f'{d}:{s}:{f}:ps{p["ps"]}:k{p["k"]}'
@@ -198,15 +232,15 @@ class Prefetch(_CHarness):
     out = []
     if res.failure:
       kind, info = res.failure
-      out.append((f'C15:prefetch:{kind}{_stuck(kind, info)}:{cfg}',
+      out.append((f'{p["prop"]}:prefetch:{kind}{_stuck(kind, info)}:{cfg}',
                   {'failure': kind, 'info': _info(info), 'log': repr(self.log),
                    'responses': repr(self.responses)}))
       return out
     if self.end != 'done':
-      out.append((f'C15:prefetch:no-end-marker:{cfg}',
+      out.append((f'{p["prop"]}:prefetch:no-end-marker:{cfg}',
                   {'responses': repr(self.responses)}))
     if self.log and self.log[0] != ('init', None):
-      out.append((f'C15:prefetch:init-failed:{cfg}', {'log': repr(self.log)}))
+      out.append((f'{p["prop"]}:prefetch:init-failed:{cfg}', {'log': repr(self.log)}))
     # per generator: elements in order, each once
     seqs = collections.defaultdict(list)
     markers = []
@@ -216,65 +250,84 @@ class Prefetch(_CHarness):
         if isinstance(e, BaseException):
           markers.append((tag, e))
           if i != len(batch) - 1:
-            out.append((f'C15:prefetch:marker-not-last-in-batch:{cfg}',
+            out.append((f'{p["prop"]}:prefetch:marker-not-last-in-batch:{cfg}',
                         {'batch': repr(batch)}))
         else:
           if not (isinstance(e, tuple) and len(e) == 2):
-            out.append((f'C15:prefetch:invented-element:{cfg}',
+            out.append((f'{p["prop"]}:prefetch:invented-element:{cfg}',
                         {'batch': repr(batch)}))
             continue
           seqs[e[0]].append(e[1])
           if tag == 'g2' and e[0] == 'g1':
-            out.append((f'C15:prefetch:old-generator-element-after-{tag}:{cfg}',
+            out.append((f'{p["prop"]}:prefetch:old-generator-element-after-{tag}:{cfg}',
                         {'responses': repr(self.responses)}))
       non_exc = [e for e in batch if not isinstance(e, BaseException)]
       if len(non_exc) > p['k']:
-        out.append((f'C15:prefetch:batch-larger-than-requested:{cfg}',
+        out.append((f'{p["prop"]}:prefetch:batch-larger-than-requested:{cfg}',
                     {'batch': repr(batch)}))
     lim1 = p['n'] if p['fail_at'] is None else min(p['n'], p['fail_at'])
     for tag, seq in seqs.items():
       if seq != list(range(len(seq))):
-        out.append((f'C15:prefetch:order-or-duplicate:{cfg}',
+        out.append((f'{p["prop"]}:prefetch:order-or-duplicate:{cfg}',
                     {'tag': tag, 'seq': seq}))
       lim = lim1 if tag == 'g1' else (p['script'][1] if p['script'] else 0)
       if len(seq) > lim:
-        out.append((f'C15:prefetch:more-elements-than-generated:{cfg}',
+        out.append((f'{p["prop"]}:prefetch:more-elements-than-generated:{cfg}',
                     {'tag': tag, 'seq': seq}))
     script = p['script'][0] if p['script'] else None
+    if script == 'shutdown-pending':
+      ans = getattr(self, 'pending_answer', None)
+      # answered in full before the shutdown took effect | the elements so far
+      # + a retriable error | dropped loudly by the stopping transport
+      elems = [e for e in ans if not isinstance(e, BaseException)] if isinstance(
+          ans, list) else []
+      ok = (isinstance(ans, tuple) and ans[0] == 'transport-error') or (
+          isinstance(ans, list) and elems == [('g1', i) for i in range(
+              self.pending_from, self.pending_from + len(elems))] and (
+                  (len(ans) == len(elems) == p['k']) or
+                  (len(ans) == len(elems) + 1 and len(elems) <= p['k'] and
+                   isinstance(ans[-1], TimeoutError))))
+      if not ok:
+        out.append((f'{p["prop"]}:prefetch:pending-request-not-answered-with-timeout-at-'
+                    f'shutdown:{cfg}', {'answer': repr(ans)}))
+      if res.leftover:
+        out.append((f'{p["prop"]}:prefetch:threads-left:{cfg}',
+                    {'left': [t for t in res.leftover]}))
+      return out
     if script is not None and not getattr(self, 'script_ran', False):
       script = None      # the stream ended before the scripted operation
     final = markers[-1][1] if markers else None
     if script is None:
       # the plain protocol: all elements, then exactly one marker
       if seqs.get('g1', []) != list(range(lim1)):
-        out.append((f'C15:prefetch:elements-missing:{cfg}',
+        out.append((f'{p["prop"]}:prefetch:elements-missing:{cfg}',
                     {'got': seqs.get('g1'), 'expected': lim1}))
       if len(markers) != 1:
-        out.append((f'C15:prefetch:marker-count:{cfg}',
+        out.append((f'{p["prop"]}:prefetch:marker-count:{cfg}',
                     {'markers': repr(markers)}))
       elif p['fail_at'] is None:
         if not (isinstance(final, StopIteration) and final.value == 'R1'):
-          out.append((f'C15:prefetch:end-marker-value:{cfg}',
+          out.append((f'{p["prop"]}:prefetch:end-marker-value:{cfg}',
                       {'marker': repr(final)}))
       else:
         if not (isinstance(final, ValueError) and 'g1@' in str(final)):
-          out.append((f'C15:prefetch:failure-not-delivered:{cfg}',
+          out.append((f'{p["prop"]}:prefetch:failure-not-delivered:{cfg}',
                       {'marker': repr(final)}))
     elif script in ('reinit', 'async-next-then-reinit'):
       n2 = p['script'][1]
       if seqs.get('g2', []) != list(range(n2)):
-        out.append((f'C15:prefetch:new-generator-elements:{cfg}',
+        out.append((f'{p["prop"]}:prefetch:new-generator-elements:{cfg}',
                     {'got': seqs.get('g2'), 'expected': n2}))
       if not (isinstance(final, StopIteration) and final.value == 'R2'):
-        out.append((f'C15:prefetch:end-marker-value:{cfg}',
+        out.append((f'{p["prop"]}:prefetch:end-marker-value:{cfg}',
                     {'marker': repr(final)}))
     else:   # stop / shutdown: the stream ends with an error, never silently
       if isinstance(final, StopIteration) and len(seqs.get('g1', [])) < lim1:
-        out.append((f'C15:prefetch:clean-end-after-{script}:{cfg}',
+        out.append((f'{p["prop"]}:prefetch:clean-end-after-{script}:{cfg}',
                     {'responses': repr(self.responses)}))
     if res.leftover:
       left = [t for t in res.leftover]
-      out.append((f'C15:prefetch:threads-left:{cfg}', {'left': left}))
+      out.append((f'{p["prop"]}:prefetch:threads-left:{cfg}', {'left': left}))
     return out
 
 
